@@ -47,6 +47,14 @@ def op_bf_new(a):
 
     def run():
         w, val = a["w"], to_int(a["x"])
+        # twin probe: an object built from the very same arguments is changed in place first - the object under test must
+        # not be that object nor share state with it (memoised / pooled fields)
+        try:
+            twin = mk_field(w, val, a.get("via", "ctor"))
+            if w:
+                twin.value = (val + 1) % (1 << (8 * w))
+        except Exception:  # noqa
+            pass
         f = mk_field(w, val, a.get("via", "ctor"))
         g = UnsignedByteField(val, w)
         back = [] if w == 0 else [views(UnsignedByteField.from_bytes(bytes(f.as_bytes)))]
@@ -78,10 +86,15 @@ def op_bf_set(a):
 
     def run():
         f = UnsignedByteField(int.from_bytes(bytes(a["v0"]), "big"), a["w"])
-        if a["by"] == "int":
-            f.value = to_int(a["x"])
-        else:
-            f.value = bytes(a["octets"]) if len(a["octets"]) % 2 else bytearray(a["octets"])
+        try:
+            if a["by"] == "int":
+                f.value = to_int(a["x"])
+            else:
+                f.value = bytes(a["octets"]) if len(a["octets"]) % 2 else bytearray(a["octets"])
+        except Exception as e:  # noqa
+            from .core import family
+            # a refused assignment must leave every view as it was
+            return {"exc": family(e), "after": views(f)}
         return {"views": views(f)}
     return outcome(run)
 
